@@ -324,7 +324,7 @@ def run_check(pid, tier, seed):
                        '-timeout=30', '-rss_limit_mb=6000', '-malloc_limit_mb=0', '-artifact_prefix=' + o + '/',
                        '-print_final_stats=1', '-verbosity=0', '-use_value_profile=1', '-len_control=0', corpus]
                 workers.append(('fuzz', Worker('fuzz%d' % i, cmd, env, o)))
-        limit = tc.get('stage_timeout', 3600 if tier == 'thorough' else 900)
+        limit = tc.get('stage_timeout', 3600 if tier == 'thorough' else 1800)
         deadline = time.time() + limit
         for stage, w in workers:
             rc = w.wait(timeout=max(5, deadline - time.time()))
